@@ -40,6 +40,11 @@ def run(tier):
     c13.container_conversions(chk, F, True)
     for ty in ("DualVec", "Dual2Vec"):
         c13.type_conversions(chk, F, ty, True)
+    # in-place lane updates (SimdValue::replace / extract / select) of the vector types and of the container (rule set of C11)
+    from . import c11
+    for ty in ("DualVec", "Dual2Vec"):
+        c11.simd(chk, F, ty)
+    c11.simd_container(chk, F)
     who_may_access(chk, F)
     chk.floor("Derivative operator impls", chk.analysed.get("Derivative operator impls", 0), 17)
     chk.floor("Derivative inherent methods", chk.analysed.get("Derivative inherent methods", 0), 6)
